@@ -385,3 +385,35 @@ Example C10_val_swap_guard_satisfiable :
   val_swap_rewrite (SDefine "tmp" TInt (EIdent "b" TInt)) (SAssign (LVar "b" TInt) (EIdent "a" TInt)) (SAssign (LVar "a" TInt) (EIdent "tmp" TInt))
     = Some (SAssign2 (LVar "b" TInt) (LVar "a" TInt) (EIdent "a" TInt) (EIdent "b" TInt)).
 Proof. repeat split; try discriminate. Qed.
+
+(* ---------------- round 7: underef as a modelled rule (EDeref: dereference of a pointer to an array) ---------------- *)
+(* deref-then-index => `p[i]`: with a non-nil pointer both forms agree for EVERY index expression (effects included) *)
+Theorem C10_underef_index_preserves_nonnil : forall en p i h n l h1,
+  evalS en p h = Some (RVal (VPArr n (Some l)), h1) ->
+  evalS en (rw_rhs (rw_underef_index p i)) h = evalS en (rw_lhs (rw_underef_index p i)) h.
+Proof. exact underef_index_preserves_nonnil. Qed.
+Print Assumptions C10_underef_index_preserves_nonnil.
+
+(* Full statement:  forall p i h, evalS en (rw_rhs ..) h = evalS en (rw_lhs ..) h.  False in the model's strict left-to-right
+   order for a nil pointer and an index with calls (C10_underef_nil_impure_index_order: both panic, the call happens
+   only in the replacement; Go leaves this order to the compiler and the differential oracle counts two panicking runs
+   as equal).  Guard: the index has no calls.  Then, nil included, the replacement has the outcome of the original. *)
+Theorem C10_underef_index_preserves_partial : forall en p i,
+  env_ok en -> typeof p = Some TPArr -> no_opaque i = true -> forall h o,
+  evalS en (rw_rhs (rw_underef_index p i)) h = Some o -> evalS en (rw_lhs (rw_underef_index p i)) h = Some o.
+Proof. exact underef_index_preserves_partial. Qed.
+Print Assumptions C10_underef_index_preserves_partial.
+
+Theorem C10_underef_nil_impure_index_order :
+  exists en p i, env_ok en /\ typeof p = Some TPArr /\
+    eval en (rw_lhs (rw_underef_index p i)) = Some (RPanic, []) /\
+    eval en (rw_rhs (rw_underef_index p i)) = Some (RPanic, [Ev "fi" [] (VInt 0)]).
+Proof. exact underef_nil_impure_index_order. Qed.
+Print Assumptions C10_underef_nil_impure_index_order.
+
+Example C10_underef_guard_satisfiable :
+  typeof (EIdent "pa" TPArr) = Some TPArr /\ no_opaque (EIdent "a" TInt) = true /\
+  evalS (env_of [("pa", VPArr 3 (Some [5; 6; 7]%Z)); ("a", VInt 1)] []) (rw_lhs (rw_underef_index (EIdent "pa" TPArr) (EIdent "a" TInt))) []
+    = Some (RVal (VInt 6), []) /\
+  print_expr (rw_lhs (rw_underef_index (EIdent "pa" TPArr) (EIdent "a" TInt))) = "(*pa)[a]".
+Proof. vm_compute. repeat split. Qed.
